@@ -107,6 +107,7 @@ type Contract struct {
 	Declass   []string
 	DeclassText  []string // raw `declassify <expr text> : <reason>` clauses (constant-time contracts)
 	PublicResult bool
+	Verdicts     bool // #ct: secret-dependent ifs outside loops whose arms only return public values are the function's verdicts
 	PublicResults map[int]bool
 	GhostVars []GhostStmt
 	Ghost     []GhostStmt
@@ -532,6 +533,8 @@ func (eng *Engine) loadContractFile(file string) error {
 		case "declassify":
 			cur.Declass = append(cur.Declass, strings.Fields(strings.ReplaceAll(rest, ",", " "))...)
 			cur.DeclassText = append(cur.DeclassText, rest)
+		case "verdicts":
+			cur.Verdicts = true
 		case "public_result":
 			if strings.TrimSpace(rest) == "" {
 				cur.PublicResult = true
